@@ -680,7 +680,7 @@ func secondOneIn(tier string) int {
 func init() {
 	crashRule := "case i = one plan and EVERY prefix k of its committed write sequence (captured with sqlite.WithCapture during an uninterrupted run, replayed into a fresh in-memory store, then a normal Workstream recovers); for a PRNG share of the crash points (quick 1/5, thorough 1/2) the writes of the recovery run are stepped through one by one and a second recovery is run from every durable state not seen before for that plan (second crash); quick: 12 PRNG samples of the bounded box + 6 random plans; thorough: the whole box (1272 shapes blocks<=2 x sequences<=2 x actions<=2 x outcome masks x tolerance{0,1} x concurrency{1,2}, plus 486 = every subset x pass/fail of the five check groups at plan and block level) + 300 random plans; plugin outcomes are a function of the action alone; cross-validation of the crash model by real kills (quick 8, thorough 200 cases): a process running a random plan on a FILE-backed store SIGKILLs itself immediately before/after its PRNG-chosen k-th write, a second process opens the directory, snapshots, recovers and reports, same oracles; distinct by plan spec"
 	register(&Prop{
-		ID: "C09", Level: "fault_enumeration", Batch: 1, PerCaseTimeout: 300 * time.Second,
+		ID: "C09", Level: "fault_enumeration", Batch: 1, PerCaseTimeout: 1200 * time.Second,
 		Rule: crashRule + "; non-trivial = the plan has at least one crash point with a durable action result", Cases: crashCases,
 		Run: c09Run, RaceAttr: raceHas("sm.fix", "sm.(*States).fix", "sm.(*States).Recovery"), MinNontrivial: 10,
 		Finish: func(tier string, counters map[string]int, cov map[string]any) string {
@@ -692,7 +692,7 @@ func init() {
 		Assumptions: []string{"crash = process death: the durable state after a crash is a prefix of the committed write sequence (each update is its own auto-commit)", "sqlite only (the cosmosdb fake has no crash semantics)"},
 	})
 	register(&Prop{
-		ID: "C10", Level: "fault_enumeration", Batch: 1, PerCaseTimeout: 300 * time.Second,
+		ID: "C10", Level: "fault_enumeration", Batch: 1, PerCaseTimeout: 1200 * time.Second,
 		Rule: crashRule + "; outcome equality is applied when no continuous check is scripted to fail and an 18-line evaluator of the scripts agrees with the uninterrupted run", Cases: crashCases,
 		Run: c10Run, RaceAttr: raceHas("sm.fix", "sm.(*States).fix", "sm.(*States).Recovery"), MinNontrivial: 10,
 		Finish: func(tier string, counters map[string]int, cov map[string]any) string {
